@@ -1439,6 +1439,17 @@ func (e *gEngine) call(f *ssa.Function, x *ssa.Call, get func(ssa.Value) lat, de
 	switch name {
 	case "errors.New", "fmt.Errorf":
 		return apply([]lat{latNonNil}, name), false
+	case "math/bits.Len64", "math/bits.Len", "math/bits.Len32", "math/bits.Len16", "math/bits.Len8":
+		// pure function of its argument: folded on constants (bit length of a boundary value)
+		if len(args) == 1 && args[0].k == kConst && args[0].c.Kind() == constant.Int {
+			if u, ok := constant.Uint64Val(args[0].c); ok {
+				n := 0
+				for ; u != 0; u >>= 1 {
+					n++
+				}
+				return apply([]lat{latInt(int64(n))}, name), false
+			}
+		}
 	}
 	var callees []*ssa.Function
 	if sc := c.StaticCallee(); sc != nil {
